@@ -28,7 +28,7 @@ CONFIGS = [(c, p, f) for c in ("CAMEL", "SNAKE") for p in ("dict", "json") for f
 
 
 def plan(tier, seed):
-    return plan_items(tier, seed, n_gen_quick=8, n_gen_thorough=250, n_quick=80, n_thorough=500)
+    return plan_items(tier, seed, n_gen_quick=8, n_gen_thorough=250, n_quick=80, n_thorough=500) + [{"kind": "bundled"}]
 
 
 def roundtrip(cls, m, casing_name, path, form):
@@ -158,11 +158,74 @@ def _same(cls, bp, mi, t, casing, path, form):
     return o[0] == "ok" and o[1] == m and bytes(o[1]) == bytes(m)
 
 
+def run_bundled(shard=None) -> "Result":
+    """the message classes the library ships (descriptor.proto, type.proto, api.proto, plugin.proto ... as bundled in
+    betterproto.lib.std): one scalar / enum field at a time set to a non-default value, dict and JSON round trips in both
+    casings.  Their attribute names are fixed in the shipped code (a field literally called `type`, `syntax`, `package`),
+    whatever the plugin of this tree would call them today."""
+    import dataclasses
+    import importlib
+    import json
+
+    import betterproto
+    from ..core import Result
+
+    res = Result()
+    samples = {betterproto.TYPE_STRING: "x", betterproto.TYPE_BOOL: True, betterproto.TYPE_BYTES: b"\x00\xff", betterproto.TYPE_DOUBLE: 1.5,
+               betterproto.TYPE_FLOAT: 2.5, betterproto.TYPE_INT64: -(2 ** 53) - 1, betterproto.TYPE_UINT64: 2 ** 64 - 1}
+    for k in (betterproto.TYPE_INT32, betterproto.TYPE_UINT32, betterproto.TYPE_SINT32, betterproto.TYPE_FIXED32, betterproto.TYPE_SFIXED32, betterproto.TYPE_ENUM):
+        samples[k] = 3
+    for k in (betterproto.TYPE_SINT64, betterproto.TYPE_FIXED64, betterproto.TYPE_SFIXED64):
+        samples[k] = 2 ** 40 + 1
+    for modname in ("betterproto.lib.std.google.protobuf", "betterproto.lib.std.google.protobuf.compiler"):
+        mod = importlib.import_module(modname)
+        for cname, cls in sorted(vars(mod).items()):
+            if not (isinstance(cls, type) and issubclass(cls, betterproto.Message) and cls is not betterproto.Message and cls.__module__ == modname):
+                continue
+            if cls.to_dict is not betterproto.Message.to_dict or cls.from_dict.__func__ is not betterproto.Message.from_dict.__func__ if hasattr(cls.from_dict, "__func__") else False:
+                continue  # Struct / Value / ListValue have a JSON form of their own (outside the grammar)
+            for f in dataclasses.fields(cls):
+                meta = betterproto.FieldMetadata.get(f)
+                if meta.proto_type not in samples or meta.wraps:
+                    continue
+                is_list = "List[" in str(f.type)
+                v = [samples[meta.proto_type]] if is_list else samples[meta.proto_type]
+                w = {"kind": "bundled", "cls": modname + "." + cname, "field": f.name}
+                try:
+                    m = cls(**{f.name: v})
+                    want = bytes(m)
+                except Exception:
+                    res.note("bundled-field-unbuildable")
+                    continue
+                res.evaluations += 1
+                res.distinct.add(f"bundled:{cname}.{f.name}")
+                res.note("bundled_fields")
+                for casing_name in ("CAMEL", "SNAKE"):
+                    casing = getattr(betterproto.Casing, casing_name)
+                    try:
+                        d = m.to_dict(casing=casing)
+                        text = json.dumps(d)
+                        backs = {"dict-instance": cls().from_dict(d), "dict-classmethod": cls.from_dict(d), "json-instance": cls().from_json(text)}
+                    except Exception as e:
+                        res.violation("bundled", [casing_name, meta.proto_type, "raised:" + type(e).__name__], f"{cname}.{f.name}: {e!r}", w)
+                        continue
+                    for how, back in backs.items():
+                        if back != m or bytes(back) != want:
+                            res.violation("bundled", [casing_name, meta.proto_type, "field-lost" if bytes(back) == b"" else "differs"],
+                                          f"{modname}.{cname}.{f.name} = {v!r}: to_dict gives {d}, {how} gives back {back!r}", w)
+                            break
+    return res
+
+
 def run_shard(shard):
+    if shard.get("kind") == "bundled":
+        return run_bundled(shard)
     return run_value_shard(shard, PROP, check_case, CONTRACTS)
 
 
 def replay(w):
+    if w.get("kind") == "bundled":
+        return run_bundled().violations
     return replay_value(w, check_case, PROP, CONTRACTS)
 
 
